@@ -16,12 +16,19 @@ K = 1 << 32
 PAYLOAD = ["cast R", "cast R", "cast P", "cast NS", "cast SESS", "cast NONE", "call R 3 -", "call R 4 50",
            "call P 5 -", "reply 55 1", "kspawn 55", "kspawn 55 56:7", "kterm 55", "kterm 56 99",
            "kjoin 1 1 55", "kjoin 1 2 55 57", "kjoin 2 1 60:4", "kleave 1 1 55", "kleave 1 2 57 58",
-           "kenum 1 2", "kenum 9 9", "ksessions 5:6", "kping 5", "kpong 3", "kready", "knone", "mnone",
+           "kenum 1 2", "kenum 9 9", "ksessions 5:6", "kping 5", "kpong 3", "kpong 0", "kready", "knone", "mnone",
            "nempty"]
+# every variant of every wire message type that is not an authentication message (control: Spawn, Terminate,
+# Ping, Pong, PgJoin, PgLeave, EnumerateNodeSessions, NodeSessions, Ready, none; node: Cast, Call with and
+# without timeout, Reply, none; the empty NetworkMessage)
+ALL_VARIANTS = ["kspawn 55 56:7", "kterm 55", "kping 5", "kpong 0", "kjoin 1 1 55", "kleave 1 1 55", "kenum 9 9",
+                "ksessions 5:6 100:7 8:101", "kready", "knone", "cast R", "cast P", "call R 3 -", "call R 4 50",
+                "reply 55 1", "mnone", "nempty"]
+LOCAL_OPS = ["lspawnR", "lspawnP", "lstopR2"]
 PROTECTED_PAYLOAD = ["cast R", "call R 3 -", "kspawn 55", "kjoin 1 1 55", "kenum 9 9", "kterm 55", "reply 55 1"]
 WRONG = ["E", "k:1:I", "k:2:I", "k:0:I:g1", "k:0:I:g2", "k:0:I:g3", "k:0:I:g4", "k:0:I:g5", "raw:0", "raw:1",
          "raw:2", "k:0:12345", "k:0:0"]
-AUTH_NOISE = ["name 1 2 3", "name 100 2 3", "name 4 101 0", "sstatus 0", "sstatus 2", "sstatus 4", "cstatus 1",
+AUTH_NOISE = ["name 1 2 3", "name 100 2 3", "name 4 101 0", "sstatus 0", "sstatus 2", "sstatus 3", "sstatus 4", "cstatus 1",
               "cstatus 0", "schal 7 8 99", "cchal 5 k:0:I", "sack k:0:I", "empty", "cchal 5 k:1:I", "sack raw:1", "sack E"]
 
 
@@ -42,7 +49,7 @@ def gen_live(chk, n):
         for pos in range(len(base) + 1):
             for pl in PROTECTED_PAYLOAD + ["cast P", "cast NS", "cast NONE", "kenum 1 2"]:
                 ops = base[:pos] + [pl] + base[pos:] + [pl, "cast R", "kspawn 55"]
-                out.append((server, 0, ops, 0))
+                out.append((server, 0, ops, 0, False))
         # every wrong digest at the decisive message, followed by payloads and a replay of the right one
         for wd in WRONG:
             ops = list(base)
@@ -50,7 +57,30 @@ def gen_live(chk, n):
             last[-1] = wd
             ops[-1] = " ".join(last)
             ops += ["cast R", "kspawn 55", base[-1], "cast R", "kenum 9 9"]
-            out.append((server, 0, ops, 0))
+            out.append((server, 0, ops, 0, False))
+    # every message variant at every position of the honest handshake (i.e. in every pre-authentication state
+    # of the session) and once more after it, both roles, Isolated and Transitive connection mode
+    for server in (True, False):
+        base = honest(server, __import__("random").Random(7))
+        for trans in (False, True):
+            for pos in range(len(base) + 1):
+                for v in ALL_VARIANTS:
+                    out.append((server, 0, base[:pos] + [v] + base[pos:] + [v, "kping 5"], 0, trans))
+            # all variants in a row in each pre-authentication state
+            for pos in range(len(base)):
+                out.append((server, 0, base[:pos] + ALL_VARIANTS + base[pos:] + ["cast R", "kspawn 55"], 0, trans))
+    # every ServerStatus value a client-side session can be told, then the rest of an honest handshake
+    for st in (0, 1, 2, 3, 4, 5, 2**32 - 1):
+        out.append((False, 0, [f"sstatus {st}", "cast R", "schal 7 8 99", "sack k:0:I", "cast R", "kspawn 55"], 0, False))
+    # local actors appearing / exiting on the node under test before and after authentication
+    # (PidLifecycleEvent path of the advertised set), then casts and calls to them
+    for server in (True, False):
+        base = honest(server, __import__("random").Random(9))
+        for pos in range(len(base) + 1):
+            for lo in (["lspawnR", "lspawnP"], ["lspawnP", "lspawnR", "lstopR2"]):
+                ops = base[:pos] + lo + ["cast R2", "cast P2"] + base[pos:] + \
+                      ["cast R2", "call P2 5 -", "cast P2", "lspawnP", "cast P2", "lspawnR", "cast R2", "lstopR2", "cast R2"]
+                out.append((server, 0, ops, 0, False))
     # adversarial acceptor / initiator WITHOUT the node's cookie, nodes with long structured cookies:
     # replayed (echoed) digest, digests under cookies that differ only after a long common prefix / in the
     # last byte / in length, zeros; followed by payloads that must stay without effect
@@ -59,10 +89,10 @@ def gen_live(chk, n):
     for ck in [0] + [k for k in COOKIES if k >= 100][::3]:
         near = near_cookies(ck)
         for d in ["E", "raw:1"] + [f"k:{c}:I" for c in near[:3]] + [f"k:{near[0]}:99"]:
-            out.append((False, 0, ["sstatus 0", "schal 7 8 99", f"sack {d}"] + tail, ck))
-            out.append((True, 0, ["name 1 2 3", f"cchal 5 {d}"] + tail, ck))
-        out.append((False, 0, ["sstatus 0", "schal 7 8 99", f"sack k:{ck}:I"] + tail, ck))
-        out.append((True, 0, ["name 1 2 3", f"cchal 5 k:{ck}:I"] + tail, ck))
+            out.append((False, 0, ["sstatus 0", "schal 7 8 99", f"sack {d}"] + tail, ck, False))
+            out.append((True, 0, ["name 1 2 3", f"cchal 5 {d}"] + tail, ck, False))
+        out.append((False, 0, ["sstatus 0", "schal 7 8 99", f"sack k:{ck}:I"] + tail, ck, False))
+        out.append((True, 0, ["name 1 2 3", f"cchal 5 k:{ck}:I"] + tail, ck, False))
     for _ in range(n):
         server = rng.random() < 0.6
         pre = 1 if (server and rng.random() < 0.2) else 0
@@ -94,7 +124,10 @@ def gen_live(chk, n):
             ops.insert(rng.randrange(len(ops) + 1), rng.choice(PAYLOAD))
         for _ in range(rng.choice([2, 4, 6, 10])):
             r = rng.random()
-            if r < 0.8:
+            if r < 0.07:
+                ops.append(rng.choice(LOCAL_OPS))
+                ops.append(rng.choice(["cast R2", "cast P2", "call P2 5 -", "call R2 3 -"]))
+            elif r < 0.8:
                 ops.append(rng.choice(PAYLOAD))
             elif r < 0.95:
                 ops.append(rng.choice(AUTH_NOISE))
@@ -105,13 +138,13 @@ def gen_live(chk, n):
             near = near_cookies(ck)
             sub = {"0": str(ck), "1": str(near[0]), "2": str(near[-1])}
             ops = [re.sub(r"k:([012]):", lambda m: f"k:{sub[m.group(1)]}:", o) for o in ops]
-        out.append((server, pre, ops, ck))
+        out.append((server, pre, ops, ck, rng.random() < 0.25))
     return out
 
 
 def live_line(c):
-    server, pre, ops, ck = c
-    role = ("server" if server else "client") + (f"@{ck}" if ck else "")
+    server, pre, ops, ck, trans = c
+    role = ("server" if server else "client") + (f"@{ck}" if ck else "") + ("/T" if trans else "")
     return f"live {role} {pre} " + " ; ".join(ops)
 
 
@@ -138,16 +171,17 @@ def head(t):
 REPLY = {0: "RNoOther", 1: "RThisContinues", 2: "ROtherContinues", 4: "RDuplicate"}
 
 
-def infer_env(step, rpid):
-    msg, flags, frames, deliv, proxies, groups, listed, rnd = step
+def infer_env(step, rpid, live=None, sessions_fail=False):
+    msg, flags, frames, deliv, proxies, groups, listed, rnd = step[:8]
+    live = [rpid] if live is None else live
     check1 = "None"
     for f in frames:
         if head(f) == "ESendAuth" and head(f[1]) == "AServerStatus":
             check1 = f"(Some {REPLY.get(f[1][1], 'ROtherContinues')})"
     ready = any(head(f) == "ESendControl" and f[1] == "KReady" for f in frames)
     check2 = "(Some RNoOther)" if ready else "None"
-    sess = "(Some [" + "; ".join(show_term(x[2]) for x in listed) + "])"
-    return (f"(mkEnv {rnd if rnd else 1} {check1} {check2} {sess} [{rpid}] [] [(900, 901, [{rpid}])])")
+    sess = "None" if sessions_fail else "(Some [" + "; ".join(show_term(x[2]) for x in listed) + "])"
+    return (f"(mkEnv {rnd if rnd else 1} {check1} {check2} {sess} [{'; '.join(map(str, live))}] [] [(900, 901, [{rpid}])])")
 
 
 def fold_model_view(mview, n_steps):
@@ -193,7 +227,7 @@ def fold_model_view(mview, n_steps):
 
 
 def impl_view(step):
-    msg, flags, frames, deliv, proxies, groups, listed, rnd = step
+    msg, flags, frames, deliv, proxies, groups, listed, rnd = step[:8]
     return {"alive": flags[1] == "true", "ok": flags[2] == "true", "alive_probe": flags[3] == "true",
             "frames": [canon(f) for f in frames],
             "deliv": [tuple(d) if isinstance(d, tuple) else d for d in deliv],
@@ -206,7 +240,7 @@ def impl_effects(steps, sess_alive_views):
     out = []
     prev_prox, prev_groups = {}, {}
     for st in steps:
-        msg, flags, frames, deliv, proxies, groups, listed, rnd = st
+        msg, flags, frames, deliv, proxies, groups, listed, rnd = st[:8]
         eff = []
         for d in deliv:
             if head(d) == "EDeliverOther":
@@ -251,8 +285,9 @@ def corpus_cases(kind):
                 continue
             w = line.split(" ", 3)
             if w[0] == kind == "live":
-                role, _, k = w[1].partition("@")
-                out.append((role == "server", int(w[2]), [o.strip() for o in w[3].split(";")], int(k or 0)))
+                role, _, t = w[1].partition("/")
+                role, _, k = role.partition("@")
+                out.append((role == "server", int(w[2]), [o.strip() for o in w[3].split(";")], int(k or 0), t == "T"))
             elif w[0] == kind == "unit":
                 out.append((w[1], w[2], [o.strip() for o in w[3].split(";")]))
     return out
@@ -269,21 +304,40 @@ def run_gate(chk, build, factor):
     for c, t in zip(cases, parsed):
         hdr, init_frames, steps = t[1], t[2], t[3]
         is_server, connid, rpid, ppid, nspid, spid = hdr[1] == "true", hdr[2], hdr[3], hdr[4], hdr[5], hdr[6]
-        cfg = f"(mkConfig {'true' if is_server else 'false'} {c[3]} 100 101 false {connid})"
+        cfg = f"(mkConfig {'true' if is_server else 'false'} {c[3]} 100 101 {'true' if c[4] else 'false'} {connid})"
         msgs = []
+        live = [rpid]          # ground truth: pids of live local actors whose message type supports remoting
+        live_at = []
+        cut = False
         for st in steps:
-            if st[1] == "Malformed":
-                break
-            msgs.append(f"({show_term(st[1])}, {infer_env(st[1:], rpid)})")
-        exprs_model.append(f"run_view dg_sym {cfg} (init_state {cfg}) [" + "; ".join(msgs) + "]")
+            m = st[1]
+            if head(m) == "LSpawn" and m[2] == "true":
+                live = live + [m[1]]
+            if head(m) == "LTerminate":
+                live = [x for x in live if x != m[1]]
+            live_at.append(list(live))
+            if m == "Malformed":
+                cut = True
+            if cut:
+                continue
+            if head(m) == "LSpawn":
+                msgs.append(f"ISpawn {m[1]} {m[2]}")
+            elif head(m) == "LTerminate":
+                msgs.append(f"ITerminate {m[1]} {m[2]}")
+            elif m == "LNone":
+                msgs.append("ISpawn 0 false")
+            else:
+                msgs.append(f"IPeer {show_term(m)} {infer_env(st[1:], rpid, live)}")
+        exprs_model.append(f"run_in_view dg_sym {cfg} (init_state {cfg}) [" + "; ".join(msgs) + "]")
         # oracle inputs from the implementation's observations only
         effs = impl_effects([s[1:] for s in steps], None)
         adv = set()
         obs, obs_closed = [], []
         ok_before, dead = False, False
-        for st, eff in zip(steps, effs):
+        for k, (st, eff) in enumerate(zip(steps, effs)):
             flags, frames = st[2], st[3]
-            obs.append(f"({'true' if ok_before else 'false'}, [{'; '.join(map(str, sorted(adv)))}], [{rpid}], [{'; '.join(eff)}])")
+            obs.append(f"({'true' if ok_before else 'false'}, [{'; '.join(map(str, sorted(adv)))}], "
+                       f"[{'; '.join(map(str, live_at[k]))}], [{'; '.join(eff)}])")
             for f in frames:
                 if head(f) == "ESendControl" and head(f[1]) == "KSpawn":
                     adv.update(a[1] for a in f[1][1])
@@ -327,8 +381,13 @@ def run_gate(chk, build, factor):
             if rnd:
                 issued = rnd
             listed_self = any(x[1] == "true" for x in listed)
-            if (flags[2] == "true" or listed_self) and not proved:
-                why = "session authenticated / listed without the digest of its challenge"
+            ev_self = [head(e) for e in s[9] if e[1] == "true"] if len(s) > 9 else []
+            announced = any(e in ("EvAuthenticated", "EvReady") for e in ev_self)
+            if (flags[2] == "true" or listed_self or announced) and not proved:
+                why = "session authenticated / listed / announced to subscribers without the digest of its challenge"
+            if c[1] and not ever_ok and flags[2] != "true" and not any(x[1] != "true" for x in listed):
+                why = why or ("an unauthenticated connection evicted the authenticated session of another peer from "
+                              "GetSessions")
             ever_ok = ever_ok or flags[2] == "true"
         reached = ever_ok or any(s[8] for s in steps)
         listed_ever = any(x[1] == "true" for s in steps for x in s[7])
@@ -384,7 +443,8 @@ UNIT_OPS = ["cast R", "cast P", "cast D", "cast NONE", "cast NS", "call R 3 -", 
             "reply 55 1", "kspawn 55", "kspawn 55 56:7", "kterm 55", "kjoin 1 1 55", "kjoin 1 2 55 57",
             "kleave 1 1 55", "kenum 1 2", "kenum 9 9", "ksessions 5:6", "kping 5", "kpong 3", "kready", "knone",
             "mnone", "nempty", "name 1 2 3", "name 100 2 3", "sstatus 0", "schal 7 8 99", "cchal 5 k:0:I",
-            "cchal 5 k:1:I", "sack k:0:I", "cstatus 1", "empty"]
+            "cchal 5 k:1:I", "sack k:0:I", "cstatus 1", "cstatus 0", "empty", "sstatus 2", "sstatus 3", "sstatus 4", "kpong 0",
+            "nsreply 0", "nsreply 1", "nsreply 2", "nsreply 3", "nsreply drop"]
 
 
 def gen_unit(chk, n):
@@ -394,6 +454,12 @@ def gen_unit(chk, n):
         for adv in UNIT_ADV:
             for op in UNIT_OPS:
                 out.append((k, adv, [op, "cast R", "kspawn 77"]))
+    for r1 in ("0", "1", "2", "3", "drop"):
+        for r2 in ("0", "1", "2", "3", "drop"):
+            out.append(("sinit", "-", [f"nsreply {r1}", "cast R", "name 1 2 3", "kspawn 55", "cstatus 1", f"nsreply {r2}",
+                                       "cchal 5 k:0:I", "cast R", "kenum 9 9"]))
+        out.append(("schal", "-", [f"nsreply {r1}", "cchal 5 k:0:I", "cast R", "kenum 9 9", "kspawn 55"]))
+        out.append(("cinit", "-", ["sstatus 0", "schal 7 8 99", f"nsreply {r1}", "sack k:0:I", "cast R", "kenum 9 9"]))
     for _ in range(n):
         k = rng.choice(UNIT_KINDS + ["sok", "cok", "schal"])
         adv = rng.choice(UNIT_ADV)
@@ -409,6 +475,7 @@ def run_units(chk, build, factor):
     impl = run_harness(build, "eng_gate", lines, shards=8)
     parsed = [parse_term(x) for x in impl]
     exprs_model, exprs_oracle = [], []
+    unit_steps = []
     for c, t in zip(cases, parsed):
         hdr, steps = t[1], t[2]
         rpid, adv0 = hdr[1], hdr[2]
@@ -418,10 +485,20 @@ def run_units(chk, build, factor):
         peer = "None" if kind in ("sinit", "cinit") else "(Some (1, 1))"
         st0 = f"(mkS ({UNIT_AUTH[kind]}) {peer} 0 ROpen [] [{'; '.join(map(str, adv0))}] true)"
         msgs, obs = [], []
+        # harness-local "(Stub k)" entries switch the scripted node server's answers; they are not messages
+        mode, modes, real_steps = 0, [], []
         for st in steps:
+            if head(st) == "Stub":
+                mode = st[1]
+            else:
+                real_steps.append(st)
+                modes.append(mode)
+        steps = real_steps
+        unit_steps.append(steps)
+        for st, md in zip(steps, modes):
             s = st[1:]
             # infer_env expects (msg, flags, frames, deliv, proxies, groups, listed, rnd)
-            env = infer_env((s[0], s[1], s[2], s[3], s[4], s[5], [], s[7]), rpid)
+            env = infer_env((s[0], s[1], s[2], s[3], s[4], s[5], [], s[7]), rpid, None, md == 9)
             msgs.append(f"({show_term(s[0])}, {env})")
         exprs_model.append(f"run_unit dg_sym {cfg} {st0} [" + "; ".join(msgs) + "]")
         effs = impl_effects([(s[1], ("tuple", "true", "true", "true"), s[3], s[4], s[5], s[6], [], s[8]) for s in steps], None)
@@ -439,7 +516,7 @@ def run_units(chk, build, factor):
     n = len(cases)
     distinct = set()
     for i, c in enumerate(cases):
-        steps = parsed[i][2]
+        steps = unit_steps[i]
         chk.coverage["evaluations"] += 1
         chk.count("unit.kind." + c[0])
         mview = parse_term(res[i])
@@ -481,3 +558,116 @@ def run_units(chk, build, factor):
         if i == 11 and len(chk.coverage["samples"]) < 8:
             chk.coverage["samples"].append({"harness_line": lines[i], "impl": impl[i][:1200], "oracle": oracle})
     return n, distinct
+
+
+# ---------------------------------------------------------------------------------------------
+# real TCP connections: the listener and client::connect entry points (NodeServerMessage::ConnectionOpened)
+
+TCP_POST = ["cast R", "call R 3 -", "cast P", "cast NONE", "kspawn 65", "kspawn 65 66:7", "kjoin 1 1 65", "kjoin 2 1 67",
+            "kleave 1 1 65", "kterm 65", "kenum 9 9", "kping 5", "kready", "reply 65 1"]
+
+
+def gen_tcp(chk, n):
+    from c17 import near_cookies
+    rng = chk.rng
+    out = []
+    for inbound in (True, False):
+        for ck in (0, 132):
+            near = near_cookies(ck)
+            auths = ["good", "none", f"wrong:k:{near[0]}:I", "wrong:E", "wrong:raw:1", f"wrong:k:{ck}:I:g2", "wrong:raw:0"]
+            for a in auths:
+                out.append((inbound, ck, a, list(ALL_VARIANTS), ["cast R", "kspawn 65", "kjoin 1 1 65", "kenum 9 9"]))
+                out.append((inbound, ck, a, [], ["cast R", "cast P", "kspawn 65"]))
+    for _ in range(n):
+        inbound = rng.random() < 0.5
+        ck = rng.choice([0, 0, 132, 124, 1])
+        near = near_cookies(ck)
+        a = rng.choice(["good", "good", "none", f"wrong:k:{rng.choice(near)}:I", "wrong:E", "wrong:raw:1",
+                        f"wrong:k:{ck}:I:g{rng.randint(1, 5)}", f"wrong:k:{ck}:12345"])
+        pre = [rng.choice(ALL_VARIANTS) for _ in range(rng.randint(0, 6))]
+        post = [rng.choice(TCP_POST) for _ in range(rng.randint(1, 8))]
+        out.append((inbound, ck, a, pre, post))
+    return out
+
+
+def run_tcp(chk, build, factor):
+    quick = chk.tier == "quick"
+    cases = gen_tcp(chk, (150 if quick else 3000) * factor)
+    lines = [f"tcp {'in' if i else 'out'}{'@' + str(ck) if ck else ''} {a} " + " ; ".join(pre) + " | " + " ; ".join(post)
+             for i, ck, a, pre, post in cases]
+    impl = run_harness(build, "eng_gate", lines, shards=8)
+    parsed = [parse_term(x) for x in impl]
+    exprs = []
+    for c, t in zip(cases, parsed):
+        hdr, msgs, frames = t[1], t[2], t[3]
+        inbound, connid, rpid, authed = hdr[1] == "true", hdr[2], hdr[3], hdr[4] == "true"
+        cfg = f"(mkConfig {'true' if inbound else 'false'} {c[1]} 100 101 false {connid})"
+        check1 = "None"
+        for f in frames:
+            if head(f) == "ESendAuth" and head(f[1]) == "AServerStatus":
+                check1 = f"(Some {REPLY.get(f[1][1], 'ROtherContinues')})"
+        ready = any(head(f) == "ESendControl" and f[1] == "KReady" for f in frames)
+        check2 = "(Some RNoOther)" if ready else "None"
+        sess = f"(Some [{'(1, 2)' if inbound else '(7, 8)'}])" if t[7][2] == "true" else "(Some [])"
+        ins = [f"IPeer {show_term(m[1])} (mkEnv {m[2] if m[2] else 1} {check1} {check2} {sess} [{rpid}] [] [(900, 901, [{rpid}])])"
+               for m in msgs]
+        exprs.append(f"run_in_view dg_sym {cfg} (init_state {cfg}) [" + "; ".join(ins) + "]")
+    res = coq_eval("C17tcp", IMPORTS, exprs, shards=min(NCPU, 8))
+    distinct = set()
+    for i, (c, t) in enumerate(zip(cases, parsed)):
+        chk.coverage["evaluations"] += 1
+        hdr, msgs, frames, deliv, proxies, groups, fin = t[1], t[2], t[3], t[4], t[5], t[6], t[7]
+        inbound, rpid, authed = hdr[1] == "true", hdr[3], hdr[4] == "true"
+        alive, listed, evs = fin[1] == "true", fin[2] == "true", fin[3]
+        chk.count(f"tcp.{'in' if inbound else 'out'}.{'authenticated' if authed else 'rejected'}")
+        good = c[2] == "good"
+        # ---- oracle on the implementation's observations (ground truth: the script, the wire, the probes)
+        why = ""
+        announced = any(e in ("EvAuthenticated", "EvReady") for e in evs)
+        if not good and (authed or listed or announced or deliv or proxies or groups):
+            why = "a TCP peer that never presented the digest of the issued challenge got an effect / was authenticated"
+        adv = set()
+        for f in frames:
+            if head(f) == "ESendControl" and head(f[1]) == "KSpawn":
+                adv.update(a[1] for a in f[1][1])
+        post_r = sum(1 for op in c[4] if op.split()[0] in ("cast", "call") and op.split()[1] == "R")
+        n_deliv_r = 0
+        for d in deliv:
+            if d[1] != rpid or d[1] not in adv or head(d) == "EDeliverOther":
+                why = why or "cast/call delivered to a local actor that is not remotable or was not advertised on the wire"
+            else:
+                n_deliv_r += 1
+        if n_deliv_r > post_r:
+            why = why or "a cast/call sent before authentication was delivered"
+        if any(p[1] < 64 for p in proxies) or any(m < 64 for g in groups for m in g[3]):
+            why = why or "a proxy / group member requested before authentication exists"
+        # ---- model view
+        mview = parse_term(res[i])
+        mv = fold_model_view([(x[1], x[2], x[3]) for x in mview], len(mview))
+        m_frames = [f for v in mv for f in v["frames"]]
+        m_deliv = [d for v in mv for d in v["deliv"]]
+        m_alive = bool(mv) and mv[-1]["alive"] if mv else True
+        m_ok = bool(mv) and mv[-1]["ok"]
+        i_frames = [canon(f) for f in frames if not (head(f) == "ESendAuth" and head(f[1]) == "AName")]
+        i_deliv = [tuple(d) if isinstance(d, tuple) else d for d in deliv]
+        model = {"authenticated": m_ok and m_alive, "frames": m_frames, "deliv": m_deliv,
+                 "proxies": mv[-1]["proxies"] if mv and m_alive and authed else [],
+                 "groups": mv[-1]["groups"] if mv and m_alive and authed else []}
+        implv = {"authenticated": authed, "frames": i_frames, "deliv": i_deliv,
+                 "proxies": sorted(((p[1], p[2]) for p in proxies), key=repr),
+                 "groups": sorted((g[1], g[2], sorted(g[3])) for g in groups)}
+        if authed:
+            distinct.add(lines[i])
+        desc = json.dumps({"kind": "tcp", "harness_line": lines[i], "impl": impl[i][:5000], "model_view": res[i][:3000]}, indent=1)
+        if why:
+            chk.violation("TCP connection (listener / client_connect): " + why,
+                          "C17 oracle rejects the observations of a real TCP session\n" + why + "\n" + desc)
+        elif model != implv:
+            chk.coverage["disagreements_checked"] += 1
+            diff = [k for k in model if model[k] != implv[k]]
+            chk.violation("model/implementation disagree (TCP session vs Gate.v)",
+                          f"correspondence E4:eng_gate tcp view differs in {diff} (oracle accepts)\nmodel: {model}\nimpl:  {implv}\n" + desc,
+                          failing_input=False)
+        if i == 1 and len(chk.coverage["samples"]) < 10:
+            chk.coverage["samples"].append({"harness_line": lines[i], "impl": impl[i][:1200]})
+    return len(cases), distinct
